@@ -220,6 +220,7 @@ BASES = ["http://example.com/Art/Page?b=2&a=1", "https://lemonde.co.uk/a", "http
 REDIRECT_BASES = ["https://x.cdn.ampproject.org/c/s/example.com/a", "https://www.youtube.com/redirect?q=example.com%2Fa", "http://site.com/out?url=http%3A%2F%2Ftarget.org%2Fp",
                   "http://bc.marfeel.com/www.site.com/x", "http://www.google.com/url?q=http://t.com/a&sa=D"]
 IP_BASES = ["http://[2001:db8::1]/a?x=1", "http://[::1]/", "http://127.0.0.1/A/b", "http://[::ffff:10.0.0.1]/p#/r"]
+WORD_DOMAINS = ["mobile.de", "m.fr", "amp.dev", "www.ck", "mobile.co.uk", "m.example.k12.ma.us".replace("example.", ""), "www2.org", "m.blogspot.com", "amp.xn--p1ai"]
 OPTSETS = [{"strip_suffix": a, "platform_aware": b} for a in (False, True) for b in (False, True)]
 
 
@@ -276,6 +277,16 @@ def _sweep(acc, shard, nshards, seed, tier):
                 emit(b, "%s://%s:%s/%s" % (scheme, host, p, tail), "port", o)
             emit(b, b.upper(), "case-flip", o)
             emit(b, "https://%s/%s" % (host, tail), "scheme", o)
+    # domains whose own label reads like an irrelevant subdomain (mobile.de, m.fr, amp.dev): the language label, port, case and scheme
+    # variations are as irrelevant there as anywhere else
+    for dom in WORD_DOMAINS:
+        b = "http://%s/Page?x=1" % dom
+        for o in OPTSETS:
+            for c in ["fr", "de", "pt-br", "EN-gb".lower().replace("en", "gb")]:
+                emit(b, "http://%s.%s/Page?x=1" % (c, dom), "language-label", o)
+            emit(b, "https://www.%s:8080/Page?x=1" % dom, "subdomain+port", o)
+            emit(b, "HTTP://%s/PAGE?X=1" % dom.upper(), "case-flip", o)
+            emit(b, "http://fr.www.%s/Page?x=1" % dom, "language-label+subdomain", o)
     # hosts that would keep < 2 labels: the label must stay
     for o in OPTSETS:
         for h in ["fr.com", "de.org", "pt-br.io"]:
